@@ -313,7 +313,8 @@ class Seams:
             (time, "perf_counter_ns", c.perf_counter_ns),
         ]
         if self.fast:
-            p.append((inspect, "stack", fast_stack))
+            # only the per-frame source lookup is short-cut; inspect.stack itself stays real, so code that walks the
+            # whole stack again keeps a cost proportional to the stack depth (the scaling oracle of C17 sees it)
             p.append((inspect, "getframeinfo", fast_getframeinfo))
         for obj, name, new in p:
             self._saved.append((obj, name, getattr(obj, name)))
